@@ -132,6 +132,11 @@ type acct struct {
 	bal   *big.Int
 	nonce uint64
 	code  bool
+	// observed but not part of the model's world: which code (hash in the account record, hash of the blob
+	// GetCode returns), the SQL recovery point
+	codeHash string
+	codeSum  string
+	sqlrp    uint64
 }
 
 type stk struct {
@@ -149,13 +154,28 @@ type snap struct {
 	names   map[int][2]int
 	bp      *big.Int
 	nrec    int
+	// observed but not part of the model's world: the BP-vote tally (aergo.system's sorted vote list) and
+	// each voter's own vote record (amount, candidates)
+	tally   map[string]string
+	voteAmt map[int]string
+	voteFor map[int]string
 }
 
 func (s *snap) clone() *snap {
 	c := &snap{accts: map[int]acct{}, stor: map[int]map[int]int{}, creator: map[int]int{}, staking: map[int]stk{},
-		total: new(big.Int).Set(s.total), voted: map[int]bool{}, names: map[int][2]int{}, bp: new(big.Int).Set(s.bp), nrec: s.nrec}
+		total: new(big.Int).Set(s.total), voted: map[int]bool{}, names: map[int][2]int{}, bp: new(big.Int).Set(s.bp), nrec: s.nrec,
+		tally: map[string]string{}, voteAmt: map[int]string{}, voteFor: map[int]string{}}
 	for k, v := range s.accts {
-		c.accts[k] = acct{new(big.Int).Set(v.bal), v.nonce, v.code}
+		c.accts[k] = acct{new(big.Int).Set(v.bal), v.nonce, v.code, v.codeHash, v.codeSum, v.sqlrp}
+	}
+	for k, v := range s.tally {
+		c.tally[k] = v
+	}
+	for k, v := range s.voteAmt {
+		c.voteAmt[k] = v
+	}
+	for k, v := range s.voteFor {
+		c.voteFor[k] = v
 	}
 	for k, m := range s.stor {
 		c.stor[k] = map[int]int{}
@@ -415,7 +435,8 @@ func (s *session) fund(i int, bal *big.Int) {
 // read: everything the real BlockState shows (buffered view), for all addresses seen so far.
 func (s *session) read(bs *state.BlockState) *snap {
 	sn := &snap{accts: map[int]acct{}, stor: map[int]map[int]int{}, creator: map[int]int{}, staking: map[int]stk{},
-		voted: map[int]bool{}, names: map[int][2]int{}, bp: new(big.Int).Set(&bs.BpReward), nrec: len(bs.Receipts().Get())}
+		voted: map[int]bool{}, names: map[int][2]int{}, bp: new(big.Int).Set(&bs.BpReward), nrec: len(bs.Receipts().Get()),
+		tally: map[string]string{}, voteAmt: map[int]string{}, voteFor: map[int]string{}}
 	scs, err := statedb.GetSystemAccountState(bs.StateDB)
 	if err != nil {
 		panic(err)
@@ -431,12 +452,22 @@ func (s *session) read(bs *state.BlockState) *snap {
 			panic(err)
 		}
 		if st != nil {
-			sn.accts[i] = acct{new(big.Int).SetBytes(st.Balance), st.Nonce, len(st.CodeHash) > 0}
+			sn.accts[i] = acct{bal: new(big.Int).SetBytes(st.Balance), nonce: st.Nonce, code: len(st.CodeHash) > 0,
+				codeHash: hex.EncodeToString(st.CodeHash), sqlrp: st.SqlRecoveryPoint}
 		}
 		if i >= iContract0 || (st != nil && len(st.CodeHash) > 0) {
 			cs, err := statedb.OpenContractStateAccount(a, bs.StateDB)
 			if err != nil {
 				panic(err)
+			}
+			if st != nil && len(st.CodeHash) > 0 {
+				blob, err := cs.GetCode()
+				if err != nil {
+					panic(err)
+				}
+				ac := sn.accts[i]
+				ac.codeSum = hex.EncodeToString(common.Hasher(blob))
+				sn.accts[i] = ac
 			}
 			for k := 0; k < nKeys; k++ {
 				v, err := cs.GetData([]byte(fmt.Sprintf("k%d", k)))
@@ -479,6 +510,8 @@ func (s *session) read(bs *state.BlockState) *snap {
 		}
 		if v.Amount != nil {
 			sn.voted[i] = true
+			sn.voteAmt[i] = new(big.Int).SetBytes(v.Amount).String()
+			sn.voteFor[i] = string(v.Candidate)
 		}
 	}
 	tot, err := system.GetStakingTotal(scs)
@@ -486,6 +519,13 @@ func (s *session) read(bs *state.BlockState) *snap {
 		panic(err)
 	}
 	sn.total = tot
+	vl, err := system.GetVoteResult(scs, []byte(types.OpvoteBP.ID()), 1000)
+	if err != nil {
+		panic(err)
+	}
+	for _, v := range vl.Votes {
+		sn.tally[string(v.Candidate)] = new(big.Int).SetBytes(v.Amount).String()
+	}
 	for n := 0; n <= nNames; n++ {
 		o, d, ok := name.VerifC01NameMap(ncs, []byte(nameStr(n)))
 		if ok {
@@ -988,6 +1028,7 @@ func (s *session) runTx(bs *state.BlockState, exec chain.TxExecFn, bi *types.Blo
 		if !post.equalState(pre) || post.bp.Cmp(pre.bp) != 0 || post.nrec != pre.nrec {
 			s.fail("C03", "a rejected transaction left a residue in the block state", "", line, "pre  "+pre.dump(z), "post "+post.dump(z))
 		}
+		s.checkHidden(pre, post, x, "rejected", line)
 	default:
 		rs := bs.Receipts().Get()
 		if len(rs) != pre.nrec+1 {
@@ -1007,6 +1048,7 @@ func (s *session) runTx(bs *state.BlockState, exec chain.TxExecFn, bi *types.Blo
 		if rc.Status == "ERROR" {
 			impl = fmt.Sprintf("failed ERROR fee=%s fd=%d to=%d", feeUsed, b2i(rc.FeeDelegation), to)
 			s.run.Count("out-failed")
+			s.checkHidden(pre, post, x, "failed", line)
 			exp := expectFailed(pre, x, feeUsed)
 			if !post.equalState(exp) {
 				residue = true
@@ -1031,6 +1073,8 @@ func (s *session) runTx(bs *state.BlockState, exec chain.TxExecFn, bi *types.Blo
 		} else {
 			impl = fmt.Sprintf("applied %s fee=%s fd=%d to=%d", rc.Status, feeUsed, b2i(rc.FeeDelegation), to)
 			s.run.Count("out-" + rc.Status)
+			s.checkHidden(pre, post, x, "applied", line)
+			s.checkTally(post, line)
 			exp := s.expectSuccess(pre, x, feeUsed, bi.No)
 			if x.typ != types.TxType_GOVERNANCE && x.typ != types.TxType_MULTICALL {
 				rcv := x.rcpt
@@ -1076,6 +1120,120 @@ func (s *session) runTx(bs *state.BlockState, exec chain.TxExecFn, bi *types.Blo
 	impl += fmt.Sprintf(" bp=%s | %s", post.bp, post.dump(post.bp))
 	s.op(line, impl, err == nil)
 	return post, kept
+}
+
+// hidden: the effects the model's world does not carry, as one canonical string.
+func (sn *snap) hidden() string {
+	var p []string
+	for _, i := range sortedKeys(sn.accts) {
+		a := sn.accts[i]
+		if a.codeHash != "" || a.sqlrp != 0 {
+			p = append(p, fmt.Sprintf("code%d=%s/%s rp%d=%d", i, a.codeHash, a.codeSum, i, a.sqlrp))
+		}
+	}
+	for _, i := range sortedKeys(sn.voteAmt) {
+		p = append(p, fmt.Sprintf("vote%d=%s->%x", i, sn.voteAmt[i], sn.voteFor[i]))
+	}
+	ks := make([]string, 0, len(sn.tally))
+	for k := range sn.tally {
+		ks = append(ks, k)
+	}
+	sort.Strings(ks)
+	for _, k := range ks {
+		p = append(p, fmt.Sprintf("tally[%x]=%s", k, sn.tally[k]))
+	}
+	return strings.Join(p, " ")
+}
+
+// tallyOf: what the BP-vote tally must be, given every voter's own record: the sum of the amounts of the
+// votes naming the candidate.
+func (sn *snap) tallyOf() map[string]string {
+	t := map[string]*big.Int{}
+	for i, amt := range sn.voteAmt {
+		a, _ := new(big.Int).SetString(amt, 10)
+		c := sn.voteFor[i]
+		for off := 0; off+system.PeerIDLength <= len(c); off += system.PeerIDLength {
+			k := c[off : off+system.PeerIDLength]
+			if t[k] == nil {
+				t[k] = new(big.Int)
+			}
+			t[k].Add(t[k], a)
+		}
+	}
+	r := map[string]string{}
+	for k, v := range t {
+		r[k] = v.String()
+	}
+	return r
+}
+
+// checkHidden: the effects of a transaction the model's world does not carry (C03 "all of its effects" /
+// "only fee and nonce" / "as if never submitted" also for them).
+//   - the code of an account (hash in the record and the stored blob) changes only by a successful DEPLOY /
+//     REDEPLOY of that account, and then to exactly the payload;
+//   - vote records and the vote tally change only by a successful governance transaction to aergo.system;
+//   - SQL recovery points never change (the scripted VM has no SQL).
+func (s *session) checkHidden(pre, post *snap, x *txSpec, outcome string, line string) {
+	if pre.hidden() == post.hidden() {
+		return
+	}
+	rc := x.rcpt
+	if rc < 0 {
+		rc = x.newAddr
+	}
+	bad := ""
+	for _, i := range sortedKeys(post.accts) {
+		a, b := pre.acct(i), post.accts[i]
+		if a.sqlrp != b.sqlrp {
+			bad = fmt.Sprintf("SQL recovery point of account %d changed", i)
+		}
+		if a.codeHash == b.codeHash && a.codeSum == b.codeSum {
+			continue
+		}
+		deploys := outcome == "applied" && i == rc && x.typ != types.TxType_GOVERNANCE && (x.rcpt < 0 || x.typ == types.TxType_REDEPLOY)
+		want := hex.EncodeToString(common.Hasher(x.payload))
+		if !deploys {
+			bad = fmt.Sprintf("the code of account %d changed without a successful deploy of it (%s tx)", i, outcome)
+		} else if b.codeHash != want || b.codeSum != want {
+			bad = fmt.Sprintf("the code stored for account %d is not the deployed payload", i)
+		}
+	}
+	voteChanged := fmt.Sprint(pre.voteAmt, pre.voteFor, pre.tally) != fmt.Sprint(post.voteAmt, post.voteFor, post.tally)
+	if voteChanged && !(outcome == "applied" && x.typ == types.TxType_GOVERNANCE && x.rcpt == iSystem) {
+		bad = fmt.Sprintf("vote records / the vote tally changed by a %s transaction that is no governance transaction to aergo.system", outcome)
+	}
+	if bad != "" {
+		s.fail("C03", bad, "", line, "pre  "+pre.hidden(), "post "+post.hidden())
+	}
+}
+
+// checkTally: after an applied transaction the tally of each candidate is the sum of the votes naming it, and
+// (from fork version 2 on) no vote exceeds its voter's stake.
+func (s *session) checkTally(post *snap, line string) {
+	want := post.tallyOf()
+	for k, v := range post.tally {
+		w := want[k]
+		if w == "" {
+			w = "0"
+		}
+		if v != w {
+			s.fail("C03", fmt.Sprintf("the vote tally of a candidate is %s, the votes naming it sum to %s", v, w), "", line, "post "+post.hidden())
+			return
+		}
+	}
+	for k, w := range want {
+		if _, ok := post.tally[k]; !ok && w != "0" {
+			s.fail("C03", "a candidate with votes is missing from the vote tally", "", line, "post "+post.hidden())
+			return
+		}
+	}
+	for i, amt := range post.voteAmt {
+		a, _ := new(big.Int).SetString(amt, 10)
+		if k, ok := post.staking[i]; !ok || a.Cmp(k.amt) > 0 {
+			s.fail("C03", fmt.Sprintf("the vote of account %d (%s) exceeds its stake", i, amt), "", line, "post "+post.hidden())
+			return
+		}
+	}
 }
 
 // classify names the known defect class a failing successful tx belongs to (by input shape), or "".
